@@ -336,33 +336,41 @@ def ordThen (a b : Ordering) : Ordering :=
   | .eq => b
   | o => o
 
-/-- `fast_compare` on two leaves (atoms, or a numeral standing for the constant `one` whose rank
-is `one`): rank, and -- so that only identical leaves compare equal -- the remaining fields; a
-numeral comes before an atom of the same rank (ranks are distinct in what the harness sends). -/
-def leafCmp (one : Nat) : NExp → NExp → Ordering
-  | .atom i s, .atom j s' =>
-    ordThen (compare i j) (ordThen (compare s.fsz s'.fsz) (compare s.hgt.toNat s'.hgt.toNat))
+/-- size of the function part: `fsz` of an atom, `|times x| = |x| + 2` of a product `x * y`. -/
+def fsize : NExp → Nat
+  | .atom _ s => s.fsz
+  | .mul x _ => x.size + 2
+  | _ => 1
+
+/-- how the head compares with the constant `times`: atoms whose head is smaller (or that are not
+binary applications) 0, products 1, atoms whose head is greater 2. -/
+def cls : NExp → Nat
+  | .atom _ s => if s.hgt then 2 else 0
+  | .mul _ _ => 1
+  | _ => 0
+
+/-- two leaves that agree in size, function-part size and class: by rank (`one` is the rank of the
+constant `one`, which a numeral body stands for; ranks are distinct in what the harness sends, a
+numeral goes first on a tie so that only identical leaves compare equal). -/
+def leafTie (one : Nat) : NExp → NExp → Ordering
+  | .atom i _, .atom j _ => compare i j
   | .num n, .num m => compare n m
   | .num _, .atom j _ => if one ≤ j then .lt else .gt
   | .atom i _, .num _ => if one ≤ i then .gt else .lt
   | _, _ => .eq
 
-/-- `fast_compare` on atoms / `one` / left-nested products; `one` is the rank of the constant `one`.
-Size first; two products: the function parts `times x`, `times x'` (size, then `x` against `x'`),
-then the arguments; an atom against a product of the same size: the atom's function part against
-`times x` (sizes `fsz` and `|x| + 2`), then the heads. -/
+/-- `fast_compare` on atoms / `one` / left-nested products: size first, then the function parts
+(`times x` of a product, `t.fun` of an atom: their sizes, then their heads against `times`), then --
+two products -- `x` against `x'` and the arguments, or -- two leaves -- the ranks.  (For two atoms
+the real function compares the ranks directly; the rank order refines the order by function-part
+size and head, so the answers coincide -- checked by the `bodycmp` stream.) -/
 def fastCmp (one : Nat) : NExp → NExp → Ordering
   | .mul x y, .mul x' y' =>
-    if (NExp.mul x y).size ≠ (NExp.mul x' y').size then compare (NExp.mul x y).size (NExp.mul x' y').size
-    else ordThen (compare x.size x'.size) (ordThen (fastCmp one x x') (fastCmp one y y'))
-  | .atom i s, .mul x y =>
-    if s.size ≠ (NExp.mul x y).size then compare s.size (NExp.mul x y).size
-    else ordThen (compare s.fsz (x.size + 2)) (if s.hgt then .gt else .lt)
-  | .mul x y, .atom i s =>
-    if (NExp.mul x y).size ≠ s.size then compare (NExp.mul x y).size s.size
-    else ordThen (compare (x.size + 2) s.fsz) (if s.hgt then .lt else .gt)
-  | t1, t2 =>
-    if t1.size ≠ t2.size then compare t1.size t2.size else leafCmp one t1 t2
+    ordThen (compare (NExp.mul x y).size (NExp.mul x' y').size)
+      (ordThen (compare x.size x'.size) (ordThen (fastCmp one x x') (fastCmp one y y')))
+  | a, b =>
+    ordThen (compare a.size b.size)
+      (ordThen (compare (fsize a) (fsize b)) (ordThen (compare (cls a) (cls b)) (leafTie one a b)))
 
 /-- `nat.compare_atom`: numbers last, two numbers are "equal". -/
 def compareAtom (one : Nat) (t1 t2 : NExp) : Ordering :=
@@ -505,6 +513,21 @@ def isPoly (one : Nat) : NExp → Bool
 
 /-- The shape `norm_full` produces: `0` or a polynomial. -/
 def isNF (one : Nat) (t : NExp) : Bool := t == .num 0 || isPoly one t
+
+/-- the atoms of a term -/
+def atomsOf : NExp → List (Nat × Shape)
+  | .atom i s => [(i, s)]
+  | .num _ => []
+  | .add a b => atomsOf a ++ atomsOf b
+  | .mul a b => atomsOf a ++ atomsOf b
+  | .suc a => atomsOf a
+
+/-- atoms are determined by their rank (the hypothesis of `norm_full_iff_poly`: then the table
+`sh i := the shape of the atom of rank i` makes every atom a table entry), and no atom has the rank
+of the constant `one`. -/
+def atomsByRank (one : Nat) (t : NExp) : Bool :=
+  let l := atomsOf t
+  l.all (fun p => p.1 != one && l.all (fun q => p.1 != q.1 || p.2 == q.2))
 
 /-- Value in ℕ under a valuation of the atoms. -/
 def eval (ρ : Nat → Nat) : NExp → Nat
